@@ -109,7 +109,7 @@ Definition codes (r : (bool * bool * bool) * list (option nat)) : list nat :=
 (* ---- (state, action, decision) transactions: C02 / C10 / C11 ---- *)
 Record txcase := mkTx {
   tx_limit : option (vk * Q);
-  tx_bits : list bool; tx_i : nat; tx_accept : bool;
+  tx_bits : list bool; tx_i : nat; tx_dec : nat;   (* 0 accept, 1 revert, 2 accept then revert *)
   tx_before : obs; tx_during : obs; tx_changes : list Z;
   tx_valid : bool; tx_quote : option Z;
   tx_after : obs; tx_state_valid : bool
@@ -122,7 +122,7 @@ Definition check_tx (d0 : dataset) (c : txcase) : bool :=
   let d := with_limit d0 (tx_limit c) in
   let s0 := synchronise d (fresh d) (tx_bits c) in
   let s1 := propose d s0 (tx_i c) in
-  let s2 := if tx_accept c then accept s1 else revert s1 in
+  let s2 := match tx_dec c with 0%nat => accept s1 | 1%nat => revert s1 | _ => revert (accept s1) end in
   Nat.ltb (tx_i c) (nactions d) && Nat.leb (length (tx_bits c)) (nactions d) &&
   obs_eqb (obs_of d s0) (tx_before c) &&
   obs_eqb (obs_of d s1) (tx_during c) &&
